@@ -25,6 +25,8 @@ def run(ctx):
             base["PhaseSpaceShiftY"] = round(r.uniform(-2, 2), 2)
         if r.chance(0.3):
             base["DampingTime"] = r.choice([0.0, 1e-3])
+        if i % 3 == 1:
+            base["InterpolateClamped"] = True        # whatever clamping does, it does it to every bunch as to a single one
         pattern = [[a, a], [a, 0.0, a], [a, a, 0.0, a, a]][i % 3]
         out = dict(i=i, base=base, pattern=pattern, viol=[], compared=0)
         files = {}
